@@ -393,6 +393,9 @@ impl fmt::Display for SmtString {
         for &x in self.s.iter() {
             if x == '"' as u32 {
                 write!(f, "\"\"")?;
+            } else if x == '\\' as u32 {
+                // a raw backslash could combine with what follows into an escape sequence
+                write!(f, "\\u{{5c}}")?;
             } else if x >= 32 && x < 127 {
                 write!(f, "{}", char::from_u32(x).unwrap())?;
             } else if x < 32 || x == 127 {
